@@ -31,8 +31,10 @@ EXPLANATION = (
     "assertions discharged per path; CrossHair single-step obligations on the polling provider.")
 RULE = "one case = one explored schedule x feasible class of pause/clock values; non-trivial = z3 decided a scheduling choice or a lease comparison"
 ASSUMPTIONS = [
-    "Linux flock semantics as modelled by FakeOS (lock belongs to the open file description, released on last close / process death)",
-    "FakeS3: strongly consistent, conditional PUT; one global clock shared by clients and server (no skew)",
+    "Linux flock semantics as modelled by FakeOS (lock belongs to the open file description, released on last close / process death); "
+    "fork = children working on copies of the parent's lock object with the parent's descriptor numbers",
+    "FakeS3: strongly consistent, conditional PUT; clients share one clock; the store's clock equals it except in the skew obligation "
+    "(store ahead by a symbolic 0..5 s; a store BEHIND the clients makes any client-side lease check early by the skew and is outside the claim)",
     "a paused client whose lease lapsed and whose lock was legitimately taken over is NOT a violation as long as is_held() reports the loss",
     "pre-emption bound K; the real kernel, real processes, NFS and the polling provider's exclusion are outside the claim",
 ]
@@ -52,7 +54,16 @@ def local_lock(sp, n=2, K=3, scenario="mutex", timeout=0.05):
         e.fos.mkdir_durable("/wh/tbl/.locks")
         inside = set()
         overlap = []
-        locks = [FileLock(LOCK, timeout if scenario != "mutex" else 5.0) for _ in range(n)]
+        if scenario == "forked":
+            # one long-lived instance (like MetadataManager.lock_provider's) is used once, THEN the process forks: every child inherits a
+            # copy of the object and of the parent's descriptor table (same descriptor numbers = same open file descriptions)
+            import copy
+            base = FileLock(LOCK, 5.0)
+            assert base.acquire() is True
+            base.release()
+            locks = [copy.copy(base) for _ in range(n)]
+        else:
+            locks = [FileLock(LOCK, timeout if scenario not in ("mutex",) else 5.0) for _ in range(n)]
         t_start = {}
         t_end = {}
         sc = Sched(sp, K=K, world=w)
@@ -115,7 +126,7 @@ def local_lock(sp, n=2, K=3, scenario="mutex", timeout=0.05):
         tag = f"local:{scenario}:n{n}"
         sp.require(not overlap, f"{tag}: critical sections overlapped: holders {overlap[:1]} (schedule {trace})", {"sig": f"{tag}:overlap"})
         for i, r in sc.results.items():
-            if scenario == "mutex":
+            if scenario in ("mutex", "forked"):
                 sp.require(r == "ok", f"{tag}: contender {i} ended with {r} (schedule {trace})", {"sig": f"{tag}:{r}"})
         if scenario == "die":
             for i in range(1, n):
@@ -132,9 +143,13 @@ def local_lock(sp, n=2, K=3, scenario="mutex", timeout=0.05):
                            {"sig": f"{tag}:timeout-duration"})
 
 
-def s3_lock(sp, n=2, K=2, pause_max_ms=130000, heartbeat=False, timeout=1.0):
+def s3_lock(sp, n=2, K=2, pause_max_ms=130000, heartbeat=False, timeout=1.0, skew_max_ms=0):
     with Env(sp, rig="S", clock="tick") as e:
         w = e.world
+        if skew_max_ms:
+            # the store's clock runs AHEAD of the clients' by a symbolic amount (LastModified is server time, the contender's "now" is its
+            # own): a fresh lock then looks slightly NEGATIVE in age to a contender - it must still not be taken over early
+            e.s3.skew_ms = sp.fresh_int("server_clock_ahead_ms", 0, skew_max_ms)
         key = "tbl/.locks/metadata.lock"
         provs = [S3LockProvider(e.s3, e.bucket, key, timeout=timeout) for _ in range(n)]
         lease_ms = provs[0].lease_seconds * 1000
@@ -168,7 +183,7 @@ def s3_lock(sp, n=2, K=2, pause_max_ms=130000, heartbeat=False, timeout=1.0):
                     return "timeout"
                 if ok is not True:
                     return f"returned {ok!r}"
-                now = w.clock.peek()
+                now = w.clock.peek() + e.s3.skew_ms   # server time, like LastModified
                 # nobody else may be inside its critical section with a still-valid lease
                 for j, sj in list(inside.items()):
                     if j == i:
@@ -183,7 +198,7 @@ def s3_lock(sp, n=2, K=2, pause_max_ms=130000, heartbeat=False, timeout=1.0):
                 inside[i] = True
                 probes = sp.choose(2, name=f"probes_is_held{i}")  # a holder may or may not re-check ownership before releasing
                 w.point("cs")
-                now2 = w.clock.peek()
+                now2 = w.clock.peek() + e.s3.skew_ms
                 for j in list(inside):
                     if j != i:
                         vi = (now2 - _last_write_ms(e, key, i)) <= lease_ms
@@ -391,12 +406,16 @@ def obligations(tier):
     if tier == "thorough":
         obs.append(Ob("local.mutex.n3.K3", "vf.props.c19:local_lock", {"n": 3, "K": 3, "scenario": "mutex"}, timeout=T * 2,
                       bounds="3 contenders, K=3", weight=9, allow_inconclusive=True))
+    obs.append(Ob("local.forked.n2.K2", "vf.props.c19:local_lock", {"n": 2, "K": 2, "scenario": "forked", "_must_reach": ["ran"]}, timeout=T,
+                  bounds="one FileLock instance used once, then forked: 2 children contend through copies of it (inherited descriptor numbers), K=2", weight=4))
     obs.append(Ob("local.die.n2.K2", "vf.props.c19:local_lock", {"n": 2, "K": 2, "scenario": "die", "timeout": 0.05}, timeout=T,
                   bounds="holder dies inside its critical section; the other contender must get the lock", weight=4))
     obs.append(Ob("local.stuck.n2.K2", "vf.props.c19:local_lock", {"n": 2, "K": 2, "scenario": "stuck", "timeout": 0.05}, timeout=T,
                   bounds="holder never releases; blocked acquirer (timeout 50 ms, poll 10 ms) must raise TimeoutError within timeout + poll", weight=4))
     obs.append(Ob("s3.n2.K2", "vf.props.c19:s3_lock", {"n": 2, "K": 2, "_must_reach": ["ran"]}, timeout=T,
                   bounds="2 contenders, real S3LockProvider, K=2, symbolic pauses 0..130 s, acquire timeout 1 s", weight=6))
+    obs.append(Ob("s3.n2.skew.K2", "vf.props.c19:s3_lock", {"n": 2, "K": 2, "skew_max_ms": 5000, "_must_reach": ["ran"]}, timeout=T,
+                  bounds="2 contenders, store clock ahead of the clients' by a symbolic 0..5 s (LastModified is server time), symbolic pauses", weight=6))
     obs.append(Ob("s3.n3.K2", "vf.props.c19:s3_lock", {"n": 3, "K": 2 if tier == "quick" else 3, "_must_reach": ["ran"]}, timeout=T * 2,
                   bounds="3 contenders, real S3LockProvider, K=2 (quick) / 3 (thorough), symbolic pauses", weight=9))
     obs.append(Ob("s3.n2.hb.K2", "vf.props.c19:s3_lock", {"n": 2, "K": 2 if tier == "quick" else 3, "heartbeat": True}, timeout=T,
